@@ -55,4 +55,4 @@ let run_lines (handle : string -> string list -> string) : unit =
       | [id] -> print_string id; print_string " err driver:noop"; print_newline ()
     done
   with End_of_file -> ());
-  flush stdout
+  Stdlib.flush Stdlib.stdout
